@@ -9,6 +9,7 @@ def run_scenarios(ck, jobs, files, rng, what):
     core.dbg(what, "scenarios", len(jobs))
     for k, job in enumerate(jobs):      # how the caller holds its arguments: a list, a tuple, or numpy arrays / objects that it goes on editing after the circuits are built
         job.setdefault("argform", ("list", "tuple", "edited")[k % 3])
+        job.setdefault("countform", ("int", "float", "int", "np")[k % 4])       # how the statistics are handed over: shots, probabilities, numpy integers
     pa = par.pmap(workers.tomo_phase_a, jobs)
     mrecs, owner = [], []
     for ji, (job, a) in enumerate(zip(jobs, pa)):
